@@ -2,6 +2,7 @@ import HdVerif.Proofs.Codec
 import HdVerif.Proofs.CodecTie
 import HdVerif.Proofs.CodecIff
 import HdVerif.Proofs.CodecGlue
+import HdVerif.Proofs.CodecDecode
 /-! # C07  Lossless frame encoding round-trips and rejects what it cannot encode
 
 Property theorems only (helper lemmas: `Proofs/Codec.lean`).  The accept / refuse / dispatch logic of
@@ -496,6 +497,45 @@ theorem reader_without_bits_stored (c : CodecImpl) (conv : List Int → List Int
     readFrame c conv (PixelModule.written p x).withoutStored bytes index = .ok x.data :=
   Codec.reader_without_bits_stored c conv p x bytes index hwf hts hba hmul hnc henc
 
+
+/-! ## decoding what `encode_frame` did not write (round 2; `Proofs/CodecDecode.lean`) -/
+
+/-- **The bits above Bits Stored are ignored on decoding** (`decode_frame`'s native route, pydicom's unused-bit correction): a
+native frame of 8 / 16 / 32-bit cells whose samples `xs` fit Bits Stored decodes to `xs` **whatever** the remaining high bits of
+every cell carry (`gs`: overlay planes of older objects, garbage) -- unsigned and two's complement alike, the sign being bit
+`stored - 1`.  Together with `accepted_samples_fit_stored` this is the mask on both sides: nothing outside the stored bits is
+written, nothing outside them is read. -/
+theorem decode_ignores_unused_high_bits (c : CodecImpl) (conv : List Int → List Int) (p : Params) (rows cols samples : Nat)
+    (dt : DType) (xs : List Int) (gs : List Nat) (hts : p.ts ∈ nativeSyntaxes) (hba : p.bitsAllocated ≠ 1)
+    (hdt : decodedDType p.bitsAllocated p.pixelRepresentation = .ok dt)
+    (hpr : p.pixelRepresentation = 0 ∨ p.pixelRepresentation = 1) (hpi : knownPI p.pi)
+    (hpc : (samples : Int) > 1 → p.planar = some 0) (hbs : 1 ≤ p.bitsStored ∧ p.bitsStored ≤ p.bitsAllocated)
+    (hshape : shapeInRange rows cols = true) (hlen : xs.length = rows * cols * samples)
+    (hfit : ∀ v ∈ xs, if p.pixelRepresentation = 1 then
+        -(2 : Int) ^ (p.bitsStored.toNat - 1) ≤ v ∧ v < (2 : Int) ^ (p.bitsStored.toNat - 1)
+      else 0 ≤ v ∧ v < (2 : Int) ^ p.bitsStored.toNat)
+    (hnc : convertsColour p.pi samples = false) :
+    decodeFrame c conv p rows cols samples (dirtyBytes dt.itemsize p.bitsStored.toNat xs gs) = .ok xs :=
+  decode_ignores_high_bits c conv p rows cols samples dt xs gs hts hba hdt hpr hpi hpc hbs hshape hlen hfit hnc
+
+/-- **Planar Configuration 1 is read back colour-by-pixel**: native cells that hold the planes of a colour frame one after the
+other (`planarOf`: `R1 R2 .. G1 G2 .. B1 B2 ..`) decode through `decode_frame(planar_configuration=1)` to the frame in the
+pixel-interleaved order (`interleave_planarOf`: pixel `k`, sample `c` is stored item `c * npix + k`) -- every shape, 8 / 16 /
+32-bit cells, signed or unsigned, any number of samples above 1.  (`encode_frame` itself never writes colour-by-plane natively:
+`native_accepted_iff_representable`.) -/
+theorem planar_frame_decodes_colour_by_pixel (c : CodecImpl) (conv : List Int → List Int) (p : Params) (rows cols samples : Nat)
+    (dt : DType) (data : List Int) (hts : p.ts ∈ nativeSyntaxes) (hba : p.bitsAllocated ≠ 1)
+    (hdt : decodedDType p.bitsAllocated p.pixelRepresentation = .ok dt)
+    (hpr : p.pixelRepresentation = 0 ∨ p.pixelRepresentation = 1) (hpi : knownPI p.pi)
+    (hs : samples > 1) (hpc : p.planar = some 1) (hbs : 1 ≤ p.bitsStored ∧ p.bitsStored ≤ p.bitsAllocated)
+    (hshape : shapeInRange rows cols = true) (hlen : data.length = rows * cols * samples)
+    (hfit : ∀ v ∈ data, if p.pixelRepresentation = 1 then
+        -(2 : Int) ^ (p.bitsStored.toNat - 1) ≤ v ∧ v < (2 : Int) ^ (p.bitsStored.toNat - 1)
+      else 0 ≤ v ∧ v < (2 : Int) ^ p.bitsStored.toNat)
+    (hnc : convertsColour p.pi samples = false) :
+    decodeFrame c conv p rows cols samples (encodeCells dt.itemsize (planarOf (rows * cols) samples data)) = .ok data :=
+  planar_frame_decodes_interleaved c conv p rows cols samples dt data hts hba hdt hpr hpi hs hpc hbs hshape hlen hfit hnc
+
 /-! ## non-vacuity: concrete frames meeting the hypotheses -/
 
 /-- a stand-in codec that refuses everything (the native examples never reach it) -/
@@ -649,5 +689,16 @@ example : readFrame noCodec id (PixelModule.written ⟨"1.2.840.10008.1.2", 16, 
 /-- the call-site table is not empty and a reader that dropped a parameter would not agree -/
 example : siteAgrees (frameCodecCallSites.filter (fun r => r.2.2.1 != "pixel_representation"))
     "image.py:_Image.get_stored_frame" "decode_frame" readerSource = false := by decide +kernel
+
+/-- 16 / 12 signed cells with garbage above bit 11: `0x7800 = 0111 1000 0000 0000` decodes to -2048, `0x0FFF` to -1 -/
+example : decodeFrame noCodec id ⟨"1.2.840.10008.1.2.1", 16, 12, "MONOCHROME2", 1, none⟩ 1 4 1
+    [0x00, 0x78, 0xFF, 0x0F, 0x00, 0xF0, 0xFF, 0x87] = .ok [-2048, -1, 0, 2047] := by decide
+example : dirtyBytes 2 12 [-2048, -1, 0, 2047] [7, 0, 15, 8] = [0x00, 0x78, 0xFF, 0x0F, 0x00, 0xF0, 0xFF, 0x87] := by decide
+/-- a 1x2 RGB frame stored colour-by-plane (R1 R2 G1 G2 B1 B2) comes back colour-by-pixel -/
+example : planarOf 2 3 [1, 2, 3, 4, 5, 6] = [1, 4, 2, 5, 3, 6] := by decide
+example : decodeFrame noCodec id ⟨"1.2.840.10008.1.2.1", 8, 8, "RGB", 0, some 1⟩ 1 2 3 [1, 4, 2, 5, 3, 6] = .ok [1, 2, 3, 4, 5, 6] := by
+  decide
+example : decodeFrame noCodec id ⟨"1.2.840.10008.1.2.1", 8, 8, "RGB", 0, some 0⟩ 1 2 3 [1, 4, 2, 5, 3, 6] = .ok [1, 4, 2, 5, 3, 6] := by
+  decide
 
 end HdVerif.C07
